@@ -157,7 +157,9 @@ def detect_encoding(
 
 def read_xml_encoding(body: bytes) -> str | None:
     if body.startswith(b'<?xml'):
-        match = RE_ENCODING.search(body)
+        # Only the declaration itself can name the encoding.
+        end = body.find(b'?>')
+        match = RE_ENCODING.search(body, 0, len(body) if end < 0 else end)
         if match is not None:
             return match.group('encoding').decode('ascii')
     return None
